@@ -758,12 +758,19 @@ pub fn run(rep: &mut Report) {
 	let tier = rep.tier.clone();
 	let lv = levels(thorough);
 	let edit_max_named = if thorough { 3 } else { 2 };
+	let hist_depth = if thorough { 5 } else { 4 };
 	rep.rule = format!(
-		"SAE. (a) parsed documents: C07's valid ASTs and forward-reference variants; spellings: 'every site takes option k' (k=0..3) under all 18 document-level configurations (attribute order x extra attributes incl. unknown keys with nested JSON x whitespace) for ASTs with <= 2 named types (larger ASTs: k=0..3 plain + k=1 under the 17 other configurations), plus the per-site product of name/reference spellings for ASTs with <= 2 named types; oracle: Schema::from_str(..).json() = SchemaMut::from_str(..).freeze().json(), no whitespace outside strings, and equal to the original as ordered JSON (own reader: same keys in the same order, numbers by value). (b) programmatic graphs via SchemaMut::from_nodes: every assignment of one option to each node of an n-node vector, options = int, string, array(k), map(k), union(k1!=k2), record(1 field k / 2 fields k1,k2) in each namespace, enum and fixed in each namespace (+ logical annotations date/uuid/decimal/duration/unknown on int, string, bytes, fixed, enum, array, record) with every in-range key, kept when all nodes are reachable, unions are spec-valid and fullnames unique; levels: {}. Graphs whose cycles all pass through a named node: serde_json::to_string Ok, the text resolves (vmodel resolver, leading-dot references allowed) to exactly the unfolded graph, freeze Ok with the same text and fingerprint = CRC-64-AVRO(pcf(unfolded graph)), the crate's parser reads the text back to a bisimilar graph with the same fingerprint (graphs with an unconditional record cycle: reference resolver only). Graphs with a cycle through unnamed nodes only: serde_json::to_string and freeze() must both return Err (no crash). Every rendering / freeze of a graph that contains any cycle is first executed in a worker subprocess (one per unit; SIGSEGV/SIGABRT/SIGALRM attributed to the case in flight, horizon {HORIZON_S} s, worker restarted behind the case). (c) edited: the plain spelling of each valid AST with <= {edit_max_named} named types parsed, then through nodes_mut(): no change / each named node renamed to Q in each namespace / a field added to each record pointing at each node; judged like (b), cyclic ones screened in a worker first. Non-trivial: (a) documents with a reference, a namespace transition or extra attributes; (b)/(c) graphs with a shared or cyclic named node or a namespace transition; distinct by text / node vector.",
+		"SAE. (a) parsed documents: C07's valid ASTs and forward-reference variants; spellings: 'every site takes option k' (k=0..3) under all 18 document-level configurations (attribute order x extra attributes incl. unknown keys with nested JSON x whitespace) for ASTs with <= 2 named types (larger ASTs: k=0..3 plain + k=1 under the 17 other configurations), plus the per-site product of name/reference spellings for ASTs with <= 2 named types; oracle: Schema::from_str(..).json() = SchemaMut::from_str(..).freeze().json(), no whitespace outside strings, and equal to the original as ordered JSON (own reader: same keys in the same order, numbers by value). (b) programmatic graphs via SchemaMut::from_nodes: every assignment of one option to each node of an n-node vector, options = int, string, array(k), map(k), union(k1!=k2), record(1 field k / 2 fields k1,k2) in each namespace, enum and fixed in each namespace (+ logical annotations date/uuid/decimal/duration/unknown on int, string, bytes, fixed, enum, array, record) with every in-range key, kept when all nodes are reachable, unions are spec-valid and fullnames unique; levels: {}. Graphs whose cycles all pass through a named node: serde_json::to_string Ok, the text resolves (vmodel resolver, leading-dot references allowed) to exactly the unfolded graph, freeze Ok with the same text and fingerprint = CRC-64-AVRO(pcf(unfolded graph)), the crate's parser reads the text back to a bisimilar graph with the same fingerprint (graphs with an unconditional record cycle: reference resolver only). Graphs with a cycle through unnamed nodes only: serde_json::to_string and freeze() must both return Err (no crash). Every rendering / freeze of a graph that contains any cycle is first executed in a worker subprocess (one per unit; SIGSEGV/SIGABRT/SIGALRM attributed to the case in flight, horizon {HORIZON_S} s, worker restarted behind the case). (c) edited: the plain spelling of each valid AST with <= {edit_max_named} named types parsed, then through nodes_mut(): no change / each named node renamed to Q in each namespace / a field added to each record pointing at each node; judged like (b), cyclic ones screened in a worker first. (d) HIST: every history of <= {hist_depth} operations from {{b = a.clone(); and for a and b: canonical_form_rabin_fingerprint(), serde_json::to_string(), freeze() (consumes the object), 5 edits through nodes_mut()}} on 5 base schemas (parsed with extra attributes / built), explicit-state BFS with states rebuilt per history; invariant after every operation: serde_json::to_string and freeze().json() report what a fresh SchemaMut::from_nodes(current nodes) renders (a parsed, never edited object: the original document on freeze), and that rendering denotes the current nodes. Non-trivial: (a) documents with a reference, a namespace transition or extra attributes; (d) histories with an observation or clone, then an edit, then an observation; (b)/(c) graphs with a shared or cyclic named node or a namespace transition; distinct by text / node vector.",
 		lv.iter().map(|b| format!("{} (n={}, namespaces {:?}{})", b.label, b.n, b.namespaces, if b.canonical_only { ", one numbering per renumbering class" } else { ", all numberings" })).collect::<Vec<_>>().join("; "),
 	);
 	rep.assumptions.push("vmodel::schema::resolve_text implements the specification's name resolution (plus the crate's documented leading-dot spelling for null-namespace references)".into());
 	rep.assumptions.push("unions inside the enumerated graphs are restricted to those the specification allows; other graphs are C19's (totality), not judged for meaning".into());
+
+	// HIST: histories on one SchemaMut (and its clone): what serde_json::to_string / freeze().json()
+	// report after any sequence of observations, clones and edits
+	let (hc, hv) = crate::shist::explore_histories("C09", if thorough { 5 } else { 4 }, crate::shist::Judge::Json);
+	rep.cover.merge(hc);
+	rep.violations.extend(hv);
 
 	// (b) first: a rendering that crashes on small graphs is found here, in isolation
 	for (li, b) in lv.iter().enumerate() {
@@ -824,6 +831,7 @@ pub fn run(rep: &mut Report) {
 		"unnamed_cycle_graphs",
 		"unnamed_cycle_graphs_render_and_freeze_err",
 		"named_cycle_graphs_screened_in_worker",
+		"histories_observe_edit_observe",
 	] {
 		if c(k) == 0 {
 			missing.push(k);
@@ -838,6 +846,9 @@ pub fn replay(v: &serde_json::Value) -> i32 {
 	let r = &v["replay"];
 	let mut cover = Cover::default();
 	let mut out = Vec::new();
+	if r["kind"] == "history" {
+		return crate::shist::replay_history(r, crate::shist::Judge::Json);
+	}
 	if r["kind"] == "graph" {
 		let g = ggen::from_json(&r["graph"]).unwrap_or_else(|| machinery("replay: bad graph".into()));
 		println!("graph: {}", ggen::describe(&g));
